@@ -457,11 +457,21 @@ static void genC20(Rng& r, KV& kv, const Opts&) {
   kv.set("deferred", r.range(0, 1));
   kv.set("viaAsync", r.range(0, 1)); // create through dispenso::async(pool, policy, f) instead of the constructor
   kv.set("sp", r.pick<long>({0, 0, 4, 20})); // spurious futex returns
+  if (r.chance(1, 8)) {
+    // "wait (practically) for ever" idioms: relative timeouts of centuries, in hours. The wait must simply block until
+    // completion; a timeout can only be reported after that much virtual time
+    kv.set("hugeh", r.pick<long>({2628000, 8760000, 87600000})); // 300, 1000, 10000 years
+    kv.set("kind", r.pick<long>({0, 2}));
+    if (kv.i("notify") < 0)
+      kv.set("notify", 900L);
+  }
   kv.setu("mp", 300000);
 }
 template <typename W>
 static bool timedWait(Case& c, W& w, bool until, long req) {
   long rep = c.p.i("rep");
+  if (!until && c.p.i("hugeh", 0) > 0)
+    return w(std::chrono::hours(c.p.i("hugeh")));
   if (!until) {
     if (rep == 0)
       return w(std::chrono::nanoseconds(req));
@@ -481,6 +491,10 @@ static void runC20(Case& c) {
     uint64_t tRet = dsched_now();
     if (ready) {
       VF_CHECK(c, completeStarted.load() == 1, "ready-before-complete", "%s reported completion before notify()/the functor had even started", what);
+    } else if (c.p.i("hugeh", 0) > 0) {
+      uint64_t elapsed = tRet - tCall;
+      VF_CHECK(c, elapsed > 3600ull * 1000000000ull * 24 * 365, "timeout-early", "%s reported a timeout after %llu ns of virtual time, %ld hours were requested", what,
+               (unsigned long long)elapsed, c.p.i("hugeh"));
     } else if (req > 0) {
       uint64_t elapsed = tRet - tCall;
       uint64_t need = (uint64_t)req;
